@@ -102,6 +102,7 @@ type LoopSpec struct {
 	Invariants []*Clause
 	Decreases  *Clause
 	Increases  []*Clause // expressions that must be strictly larger on every back edge than at the header
+	Steps      []*Clause // step clauses: hold at every back edge; athead(e) is e as it was at the loop head of that iteration
 }
 
 type CallAssert struct {
@@ -1087,6 +1088,8 @@ func parseSpecFile(path string, pkgPath string) (*SpecFile, error) {
 				ls.Invariants = append(ls.Invariants, c)
 			} else if k2 == "increases" {
 				ls.Increases = append(ls.Increases, c)
+			} else if k2 == "step" {
+				ls.Steps = append(ls.Steps, c)
 			} else if k2 == "decreases" {
 				ls.Decreases = c
 			} else {
